@@ -70,6 +70,11 @@ def main(ctx):
     esc = escape.rule_escape(ctx, ix)
     escape.rule_tensor_method_escape(ctx, ix, esc)
     escape.rule_cli(ctx, ix)
+    # the emitted C compiles only if generated identifiers cannot coincide with each other or with a user's names
+    # (the rule is shared with C01: name templates are unified pairwise, the user-name language is read from the grammar)
+    from ..srules import names
+
+    names.run(ctx)
     # K part: crash datum + typing + reserved identifiers
     import os
     if os.environ.get("VERIF_SKIP_K"):
